@@ -50,7 +50,17 @@ func WriteAnnounce(w io.Writer, txID []byte, resp *bittorrent.AnnounceResponse, 
 	}
 
 	for _, peer := range peers {
-		buf.Write(peer.IP.IP)
+		// Entries have a fixed size: write the address in the form of the
+		// list's family, whatever form the peer holds it in.
+		ip := peer.IP.IP
+		if v6Peers {
+			if ip16 := ip.To16(); ip16 != nil {
+				ip = ip16
+			}
+		} else if ip4 := ip.To4(); ip4 != nil {
+			ip = ip4
+		}
+		buf.Write(ip)
 		_ = binary.Write(buf, binary.BigEndian, peer.Port)
 	}
 
